@@ -213,3 +213,78 @@ func TestC20WorkersBusy(t *testing.T) {
 		}
 	}
 }
+
+// The row "SendHeader whose write fails" of the server stream object (Stats.v
+// SSendHeader false): the writer goroutine is stuck in a blocked transport write
+// (a unary reply), the stream's context is cancelled by the caller's reset, then the
+// handler calls SendHeader: the write path's select can only take ctx.Done. The
+// OutHeader event was emitted, the headers stay pending, and the next SendMsg emits
+// OutHeader again.
+func TestC20SendHeaderWriteFails(t *testing.T) {
+	em := NewEmitter()
+	defer em.Close()
+	idx := 0
+	for nh := 1; nh <= 3; nh++ {
+		if !anyWanted(idx, nh) {
+			idx += nh
+			continue
+		}
+		stBegin(em, idx)
+		first := idx
+		hs := newStatsSet(nh)
+		bubble(t, func(t *testing.T) {
+			ep := NewEndpoint("s")
+			cmds := make(chan string)
+			acks := make(chan struct{})
+			impl := &echoImpl{
+				unary: func(ctx context.Context, req []byte) ([]byte, bool, error) { return req, true, nil },
+				stream: func(kind string, ss grpc.ServerStream) error {
+					for c := range cmds {
+						switch c {
+						case "sendheader":
+							ss.SendHeader(tokenMD(1))
+						case "send":
+							ss.SendMsg(bv([]byte("r")))
+						}
+						acks <- struct{}{}
+					}
+					return codeErr(9)
+				},
+			}
+			srv := newEchoServer("dst", impl, serverStats(hs)...)
+			ret := make(chan error, 1)
+			go func() { ret <- srv.Serve(context.Background(), ep) }()
+			ep.BlockWrites()
+			body, _ := protoMarshal(bv([]byte("q")))
+			ep.Deliver(&Rpc{Id: 1, Header: hdr("/verif.Echo/Unary", "src", "dst"), Body: &goatorepo.Body{Data: body}})
+			synctest.Wait() // the writer is now stuck writing the unary reply
+			ep.Deliver(&Rpc{Id: 2, Header: hdr("/verif.Echo/Bidi", "src", "dst")})
+			synctest.Wait()
+			ep.Deliver(&Rpc{Id: 2, Header: hdr("/verif.Echo/Bidi", "src", "dst"), Reset_: &goatorepo.Reset{Type: "RST_STREAM"}})
+			synctest.Wait() // the handler's context is cancelled
+			for _, c := range []string{"sendheader", "send"} {
+				cmds <- c
+				<-acks
+				synctest.Wait()
+			}
+			close(cmds)
+			synctest.Wait()
+			ep.UnblockWrites()
+			synctest.Wait()
+			ep.FailRead(io.EOF)
+			synctest.Wait()
+			<-ret
+		})
+		for i, h := range hs {
+			evs, stray := h.rpcOnly(2) // RPC 1 is the unary call that keeps the writer busy
+			if want(idx) {
+				em.Emit(Rec{Idx: idx, Kind: "stats-server-stream", Desc: map[string]any{"scenario": "sendheader-write-fails", "nh": nh, "h": i},
+					Obs:  map[string]any{"events": evs},
+					Tags: []string{"role=server-stream", "exit=sendheader-write-fails", fmt.Sprintf("handlers=%d", nh)},
+					Coq:  fmt.Sprintf("CStats (XSS (SS_run [(SSendHeader false); SSendMsg] RErr)) %d %d true false %s %d", nh, i, coqList(evs), stray)})
+			}
+			idx++
+		}
+		stEnd(em, first)
+	}
+}
